@@ -219,7 +219,7 @@ def sized_params(g):
         P("ac.arpc2", [16, 8, 4], lambda v: op_arpc2(v[0], v[1], v[2], R.choice([None, R.randbytes(R.randrange(0, 9))]), proj="class")),
         P("kd.common_sk", [16, 8], lambda v: op_common_sk(v[0], v[1], proj="class")),
         P("kd.visa_sk", [16, 2], lambda v: op_visa_sk(v[0], v[1], proj="class")),
-        P("kd.tree_sk", [16, 2, 16], lambda v: op_tree_sk(v[0], v[1], 8, 4, v[2], proj="class")),
+        P("kd.tree_sk", [16, 2, 16], lambda v: op_tree_sk(v[0], v[1], *R.choice([(8, 4), (8, 4), (8, 4), (16, 2), (1, 65535), (2, 255), (1, 1)]), v[2], proj="class")),
         P("sm.command_mac", [16], lambda v: op_command_mac(v[0], g.msg(), None, proj="class")),
         P("sm.encrypt", [16], lambda v: op_encrypt(v[0], g.msg(), R.choice(["VISA", "MASTERCARD", "EMV"]), proj="class")),
         P("sm.vis_pin", [16], lambda v: op_vis_pin(v[0], g.form(g.digits(R.randrange(4, 13))), g.form(R.choice([None, g.digits(R.randrange(4, 13))])), proj="class")),
@@ -382,6 +382,16 @@ def C16(ctx):
                     outs[(type(a).__name__,)] = canon(lambda: o.generate_pin_change_command(a, arqc, atc))
         n += len(outs) + 4
         ctx.check("str and bytes forms agree", len(set(outs.values())) == 1, f"{c} pin change {pin!r} {cur!r}: {outs}")
+    # refusals agree too: PINs and current PINs of inadmissible length, keys of the wrong size, in both forms
+    for _ in range(ctx.n(300, 3000)):
+        k = R.choice([g.key(), g.key(), g.badkey()]); pin = g.digits(R.choice([0, 1, 3, 4, 12, 13, 20])); cur = R.choice([None, g.digits(R.choice([0, 3, 4, 12, 13]))])
+        outs = {(type(a).__name__,): canon(lambda: sm.format_iso9564_2_pin_block(a)) for a in forms(pin)}
+        ctx.check("str and bytes forms agree", len(set(outs.values())) == 1, f"iso2 {pin!r}: {outs}")
+        outs = {}
+        for a in forms(pin):
+            for b in forms(cur):
+                outs[(type(a).__name__, type(b).__name__)] = canon(lambda: sm.format_vis_pin_block(k, a, b))
+        ctx.check("str and bytes forms agree", len(set(outs.values())) == 1, f"vis {hx(k)} {pin!r} {cur!r}: {outs}")
     ctx.extra["paired_calls"] = n
     # and the model agrees with both forms (ties the agreed value to the specified one)
     cases = []
